@@ -65,3 +65,14 @@ CASES += [
     {"name": "levels sorted explicitly", "kind": "twin", "edits": [
         (AB10, "        eldip = self.get_dipole(exindx, min(n1, n2), max(n1, n2))", "        lo, hi = sorted((n1, n2))\n        eldip = self.get_dipole(exindx, lo, hi)", 1)]},
 ]
+
+CASES += [
+    {"name": "sub-modes looked up with the index in the list of molecules that have modes (seeded change of round 5)", "kind": "mutant", "rule": "C10-H", "edits": [
+        ("quantarhei/builders/aggregate_states.py", "        n = 0\n        for mn in aggregate.monomers:\n            for a in range(mn.nmod):\n                vb_ls.append(mn.get_Mode(a).get_SubMode(elst[n]))\n            n += 1\n",
+         "        vibmols = [mn for mn in aggregate.monomers if mn.nmod > 0]\n        for n, mn in enumerate(vibmols):\n            for a in range(mn.nmod):\n                vb_ls.append(mn.get_Mode(a).get_SubMode(elst[n]))\n", 1)]},
+    {"name": "counter advanced only for molecules with modes", "kind": "mutant", "rule": "C10-H", "edits": [
+        ("quantarhei/builders/aggregate_states.py", "                vb_ls.append(mn.get_Mode(a).get_SubMode(elst[n]))\n            n += 1\n", "                vb_ls.append(mn.get_Mode(a).get_SubMode(elst[n]))\n            if mn.nmod > 0:\n                n += 1\n", 1)]},
+    {"name": "molecules enumerated", "kind": "twin", "edits": [
+        ("quantarhei/builders/aggregate_states.py", "        n = 0\n        for mn in aggregate.monomers:\n            for a in range(mn.nmod):\n                vb_ls.append(mn.get_Mode(a).get_SubMode(elst[n]))\n            n += 1\n",
+         "        for n, mn in enumerate(aggregate.monomers):\n            for a in range(mn.nmod):\n                vb_ls.append(mn.get_Mode(a).get_SubMode(elst[n]))\n", 1)]},
+]
